@@ -447,7 +447,11 @@ fn case_key(k: &str) -> String {
         .and_then(|t| t.strip_suffix('}'))
         .map(|t| t.trim_matches([' ', '\n']))
         .unwrap_or("");
-    let pp = if inner == format!("{printed} = null") { "same".to_string() } else { format!("DIFF:{}", show_cps(&via_printer)) };
+    let same = inner
+        .strip_prefix(printed.as_str())
+        .map(|rest| rest.split_whitespace().collect::<Vec<_>>() == ["=", "null"])
+        .unwrap_or(false);
+    let pp = if same { "same".to_string() } else { format!("DIFF:{}", show_cps(&via_printer)) };
     format!("P={}\tK={}\tPP={}", show_cps(&printed), key, pp)
 }
 
